@@ -143,8 +143,9 @@ impl MarkdownEventsReader {
                 Html(_) => {}
                 InlineHtml(text) => {
                     // a tag or comment that spans lines comes with the indentation and quote
-                    // markers of its container on the continuation lines; the writer puts them
-                    // in front of every line again
+                    // markers of its container on the continuation lines, and the writer puts
+                    // them in front of every line again: it is kept on one line, which also
+                    // keeps a continuation like "- b -->" from starting a list
                     let text = text
                         .lines()
                         .enumerate()
@@ -153,7 +154,7 @@ impl MarkdownEventsReader {
                             _ => line.trim_start_matches(|c| c == ' ' || c == '\t' || c == '>'),
                         })
                         .collect::<Vec<_>>()
-                        .join("\n");
+                        .join(" ");
                     self.push_inline(
                         DocumentInline::Str(text),
                         self.to_line_range(range),
